@@ -888,6 +888,18 @@ def _isfinite(ex, fv_, args, kwargs, fr, node):
     return vbool(smt.is_fin(ex.coerce(v, "fl").t))
 
 
+@handler("numpy.all", "numpy.any")
+def _np_allany(ex, fv_, args, kwargs, fr, node):
+    v = args[0]
+    if v.ty.kind == "bool":            # numpy.all / numpy.any of a scalar
+        return v
+    from . import npmodels
+    r = npmodels.call(ex, fv_.name, fv_, args, kwargs, fr, node)
+    if r is NotImplemented:
+        raise Unsupported(f"{fv_.name} on {v.ty}")
+    return r
+
+
 @handler("numpy.isinf", "math.isinf")
 def _isinf(ex, fv_, args, kwargs, fr, node):
     v = ex.coerce(args[0], "fl")
